@@ -92,12 +92,20 @@ func sgCheckSet(r *sgRun, pi int, m *sgModel, rec *sgRec) {
 		if rec.EmptySDP {
 			sdpNote = "without-sdp"
 		}
+		changed := rec.Pre.State != rec.Post.State || rec.Pre.PL != rec.Post.PL || rec.Pre.CL != rec.Post.CL || rec.Pre.PR != rec.Post.PR || rec.Pre.CR != rec.Post.CR
+		if !ok && changed {
+			// a rollback that was refused must not have discarded anything
+			r.viol("C02", "rejected-rollback-changed-state-or-descriptions", fmt.Sprintf("%s (%s) returned %q but state %s -> %s, pendingLocal %s -> %s, pendingRemote %s -> %s, currentLocal %s -> %s, currentRemote %s -> %s",
+				who, sdpNote, rec.Err, rec.Pre.State, rec.Post.State, sgShort(rec.Pre.PL), sgShort(rec.Post.PL), sgShort(rec.Pre.PR), sgShort(rec.Post.PR), sgShort(rec.Pre.CL), sgShort(rec.Post.CL), sgShort(rec.Pre.CR), sgShort(rec.Post.CR)))
+		}
 		switch {
 		case rec.Pre.State == "stable" && ok:
 			r.viol("C02", "rollback-from-stable-accepted", who+" succeeded")
 		case sideMatches && !ok && !rec.Pre.Closed:
 			r.viol("C02", "rollback-rejected:"+rec.Side+":"+rec.Pre.State, fmt.Sprintf("%s (%s) returned %q", who, sdpNote, rec.Err))
-		case sideMatches && ok:
+		case ok:
+			// whichever side applied it (W3C lets either call roll back), a successful rollback ends in
+			// stable, discards both pending descriptions and keeps the last stable current ones
 			if rec.Post.State != "stable" || rec.Post.PL != "<nil>" || rec.Post.PR != "<nil>" {
 				r.viol("C02", "rollback-did-not-restore-stable", fmt.Sprintf("%s: state %s pendingLocal %s pendingRemote %s", who, rec.Post.State, sgShort(rec.Post.PL), sgShort(rec.Post.PR)))
 			}
@@ -280,7 +288,10 @@ func sgCheckNegotiationNeeded(r *sgRun, pi int) {
 			_ = n
 		}
 		// (b) a pending change must have produced an invocation once stable and drained
-		if rec.Post.State == "stable" && !rec.Post.Closed {
+		if rec.Undrained {
+			r.res.stat("c04_points_skipped_queue_not_drained", 1)
+		}
+		if rec.Post.State == "stable" && !rec.Post.Closed && !rec.Undrained {
 			uncovered := ""
 			for _, ch := range ps.changes {
 				if ch.at <= rec.Idx && ch.at >= completedAfter {
@@ -315,6 +326,8 @@ type sgGenState struct {
 	remotePTs     map[string]bool // kind|pt|codec seen in an earlier applied remote description
 	pendingPTs    []string
 	unapplied     map[string]bool
+	newMids       map[string]bool // mids the most recent applied offer introduced
+	newByOffer    map[string]bool // mids whose transceiver was created by the most recent SetRemoteDescription(offer)
 }
 
 func sgStateOf(ps *sgPeerState) *sgGenState {
@@ -334,6 +347,14 @@ func sgMonitorGenerated(r *sgRun, ps *sgPeerState, rec *sgRec) {
 	applied := rec.Kind == "setremote" && rec.Err == "" && rec.Desc != nil && rec.Type != "rollback"
 	who := fmt.Sprintf("peer %d op %d (%s)", pi, rec.Idx, rec.Op.Kind)
 
+	if rec.Kind == "setremote" && rec.Type == "offer" {
+		g.newByOffer = map[string]bool{}
+		for _, t := range pc.GetTransceivers() {
+			if _, seen := g.trMid[t]; !seen && t.Mid() != "" {
+				g.newByOffer[t.Mid()] = true
+			}
+		}
+	}
 	// --- C09 part 1: a transceiver's mid never changes
 	preAssigned := map[*RTPTransceiver]bool{}
 	for _, t := range pc.GetTransceivers() {
@@ -422,6 +443,14 @@ func sgMonitorGenerated(r *sgRun, ps *sgPeerState, rec *sgRec) {
 		// positions are recorded from descriptions that were applied (local or remote), a created
 		// description that is never set is not "an earlier local description"
 		if applied {
+			if rec.Type == "offer" {
+				g.newMids = map[string]bool{}
+				for _, s := range p.Sections {
+					if m, ok := s.Mid(); ok && !g.seenMids[m] {
+						g.newMids[m] = true // a section this offer introduces
+					}
+				}
+			}
 			sgRecordPositions(g, p)
 		}
 	}
@@ -459,7 +488,11 @@ func sgMonitorGenerated(r *sgRun, ps *sgPeerState, rec *sgRec) {
 	}
 	for m, n := range mids {
 		if n > 1 {
-			r.viol("C06", "duplicate-mid", fmt.Sprintf("%s: mid %q is used by %d m-sections", who, m, n))
+			cls := "duplicate-mid"
+			if m == "data" && ps.cfg.Semantics != 0 {
+				cls = "duplicate-mid:plan-b-data-section-vs-remote-mid-named-data"
+			}
+			r.viol("C06", cls, fmt.Sprintf("%s: mid %q is used by %d m-sections", who, m, n))
 		}
 	}
 	var bundle []string
@@ -717,10 +750,24 @@ func sgCheckAnswer(r *sgRun, ps *sgPeerState, rec *sgRec, ans, off *vfSDP, who s
 			}
 		}
 		if !okDir && ad != "" && unified {
-			r.viol("C08", "illegal-answer-direction:offered-"+od+"-answered-"+ad, fmt.Sprintf("%s: section %d (mid %q) offered %s, answered %s", who, i, om, od, ad))
+			hist := ":section-re-offered" // the mid was negotiated before; SetRemoteDescription found the transceiver by mid
+			if g.newMids[om] {
+				hist = ":section-new-in-this-offer"
+			}
+			r.viol("C08", "illegal-answer-direction:offered-"+od+"-answered-"+ad+hist, fmt.Sprintf("%s: section %d (mid %q) offered %s, answered %s", who, i, om, od, ad))
 		}
 		// C16 codecs
 		om2, am2 := sgRtpmaps(o), sgRtpmaps(a)
+		// where the section's codec list came from: a transceiver this offer created is filled
+		// from the offered section itself; an older one from the connection-wide negotiated list,
+		// or from SetCodecPreferences when the application pinned payload types
+		origin := ":transceiver-existed-before-this-offer"
+		if g.newByOffer[om] {
+			origin = ":transceiver-created-by-this-offer"
+		}
+		if ps.explicitPrefs {
+			origin += "+setcodecpreferences-with-payload-types"
+		}
 		listed := map[string]bool{}
 		for _, f := range o.Fmts {
 			listed[f] = true
@@ -736,14 +783,28 @@ func sgCheckAnswer(r *sgRun, ps *sgPeerState, rec *sgRec, ans, off *vfSDP, who s
 					}
 				}
 				if !ptElsewhere && g.remotePTs[a.Kind+"|"+pt+"|"+am2[pt]] {
-					r.viol("C16", "answer-keeps-payload-type-from-an-earlier-remote-description", fmt.Sprintf("%s: section %d (mid %q): answer lists payload type %s (%s); the offer being answered lists %v, the payload type was offered in an earlier remote description only", who, i, om, pt, am2[pt], o.Fmts))
+					r.viol("C16", "answer-keeps-payload-type-from-an-earlier-remote-description"+origin, fmt.Sprintf("%s: section %d (mid %q): answer lists payload type %s (%s); the offer being answered lists %v, the payload type was offered in an earlier remote description only", who, i, om, pt, am2[pt], o.Fmts))
 					continue
+				}
+				if ptElsewhere && strings.HasPrefix(am2[pt], "rtx/") {
+					// the primary of this RTX may well be offered here; the retransmission payload type is not
+					primaryHere := false
+					for _, v := range vfAttrVals(a.Attrs, "fmtp") {
+						f := strings.SplitN(v, " ", 2)
+						if len(f) == 2 && f[0] == pt && strings.HasPrefix(f[1], "apt=") && listed[strings.TrimPrefix(f[1], "apt=")] {
+							primaryHere = true
+						}
+					}
+					if primaryHere {
+						r.viol("C16", "answer-adds-rtx-the-section-did-not-offer"+origin, fmt.Sprintf("%s: section %d (mid %q): answer lists RTX payload type %s whose primary is offered here, but the offer section lists only %v", who, i, om, pt, o.Fmts))
+						continue
+					}
 				}
 				if ptElsewhere {
-					r.viol("C16", "answer-uses-payload-type-offered-only-in-another-section", fmt.Sprintf("%s: section %d (mid %q): answer lists payload type %s (%s); this section of the offer lists %v, payload type %s is offered in another section only", who, i, om, pt, am2[pt], o.Fmts, pt))
+					r.viol("C16", "answer-uses-payload-type-offered-only-in-another-section"+origin, fmt.Sprintf("%s: section %d (mid %q): answer lists payload type %s (%s); this section of the offer lists %v, payload type %s is offered in another section only", who, i, om, pt, am2[pt], o.Fmts, pt))
 					continue
 				}
-				r.viol("C16", "answer-lists-payload-type-not-offered", fmt.Sprintf("%s: section %d (mid %q): answer lists payload type %s (%s), offer listed %v", who, i, om, pt, am2[pt], o.Fmts))
+				r.viol("C16", "answer-lists-payload-type-not-offered"+origin, fmt.Sprintf("%s: section %d (mid %q): answer lists payload type %s (%s), offer listed %v", who, i, om, pt, am2[pt], o.Fmts))
 				continue
 			}
 			oc, ac := om2[pt], am2[pt]
@@ -754,7 +815,7 @@ func sgCheckAnswer(r *sgRun, ps *sgPeerState, rec *sgRec, ans, off *vfSDP, who s
 				ac = sgStaticPT[pt]
 			}
 			if oc != "" && ac != "" && oc != ac {
-				r.viol("C16", "answer-payload-type-maps-to-different-codec", fmt.Sprintf("%s: section %d (mid %q): payload type %s is %s in the offer, %s in the answer", who, i, om, pt, oc, ac))
+				r.viol("C16", "answer-payload-type-maps-to-different-codec"+origin, fmt.Sprintf("%s: section %d (mid %q): payload type %s is %s in the offer, %s in the answer", who, i, om, pt, oc, ac))
 			}
 		}
 	}
@@ -798,13 +859,19 @@ func sgCheckOffer(r *sgRun, ps *sgPeerState, rec *sgRec, off *vfSDP, g *sgGenSta
 			r.viol("C12", "section-direction-differs-from-transceiver", fmt.Sprintf("%s: mid %q transceiver direction %s, section says %s", who, mid, t.Direction(), d[0]))
 		}
 		sender := t.Sender()
-		if sender == nil || sender.Track() == nil {
+		if sender == nil {
+			continue
+		}
+		track := sender.Track()
+		if mt, modelled := ps.trackOf[sender]; modelled {
+			track = mt // the last track ReplaceTrack accepted for this sender
+		}
+		if track == nil {
 			continue
 		}
 		if t.Direction() != RTPTransceiverDirectionSendrecv && t.Direction() != RTPTransceiverDirectionSendonly {
 			continue
 		}
-		track := sender.Track()
 		wantMsid := track.StreamID() + " " + track.ID()
 		found := false
 		for _, v := range vfAttrVals(s.Attrs, "msid") {
